@@ -683,6 +683,13 @@ def serve_and_check(case, app, suffix):
 
     # ---- PEP 3333 clauses ----
     for clause, msg in validate(r, method=case['method']):
+        if clause == 'close-escape' and case['result'].get('close_raises'):
+            # the handler iterable's own close() fails: whether that surfaces as the last-resort 500 (the framework closes
+            # the iterable of a bodyless response itself) or from the close() the server calls on the result is not for
+            # the statement to say - it speaks of failures before the first chunk; what stays judged: nothing escapes
+            # app(), one well-formed start_response, no body, the iterable closed exactly once
+            res['probes']['failing_close_surfaced_at_server_close'] += 1
+            continue
         violation(res, f'C03:{clause}', msg)
     code = r.code
     fault = case.get('fault')
